@@ -121,7 +121,7 @@ def _project_event(P, pos, e, cur, nxt, stack, pending_exit, retval, last_alloc,
                     P.problems.append("reaping call on a thread that was never created: " + e.raw)
                     return
                 lines.append("call %d %s %d" % (a, op[0], t)); src.append(e)
-                rec = {"actor": a, "op": op[0], "target": t, "pos": pos, "checks": []}
+                rec = {"actor": a, "op": op[0], "target": t, "pos": pos, "checks": [], "null": "null" in op}
                 P.calls.append(rec)
             elif op[0] == "cancel":
                 t = cur.get(int(op[1]))
